@@ -12,7 +12,7 @@ CellActions ==
   {[op |-> "NewCell", shape |-> "opt", tag |-> t] : t \in {0, 1}}
   \cup {[op |-> "NewCell", shape |-> "res", tag |-> t] : t \in {0, 1}}
   \cup {[op |-> "NewCell", shape |-> "tup", tag |-> t] : t \in 1..4}
-  \cup {[op |-> "Flip"], [op |-> "TakeOpt"], [op |-> "DropCell"]}
+  \cup {[op |-> "Flip"], [op |-> "TakeOpt"], [op |-> "DropCell"], [op |-> "ResOk"], [op |-> "ReplaceMut"], [op |-> "DefaultOpt"]}
 Actions == IF Mode = "slices" THEN SliceActions ELSE CellActions
 
 GenInit == Init /\ hist = <<>>
